@@ -12,6 +12,8 @@
 //!   bech <hrp hex> <hex>      bech32 crate: to_base32, encode, decode, from_base32 (hook H12 pass-throughs)
 //!   bech5 <hrp hex> <u5 hex>  the same on arbitrary 5-bit symbols (padding errors of from_base32)
 //!   bechd <hex of text>       bech32::decode + from_base32 on arbitrary text
+//!   b58a <hex of text>        ByronAddress::is_valid / from_base58 / to_base58 on arbitrary Base58 text
+//!   becha <hrp hex> <hex>     Address::from_bech32 of the bech32 text of arbitrary payload bytes
 //! Address description <desc> (no spaces):
 //!   base:<net>:<k|s>:<hash>:<k|s>:<hash>   ptr:<net>:<k|s>:<hash>:<slot>:<tx>:<cert>
 //!   ent:<net>:<k|s>:<hash>   rwd:<net>:<k|s>:<hash>
@@ -198,6 +200,8 @@ fn obs_dec(data: Vec<u8>) -> String {
     }).unwrap_or(("panic".into(), "-".into(), "~".into(), "err".into()));
     let d = data.clone();
     let (e, w) = g(move || embedded(&d)).unwrap_or(("panic".into(), "~".into()));
+    let hx = hex::encode(&data);
+    let h = g(move || res_addr(Address::from_hex(&hx))).unwrap_or("panic".into());
     let d = data.clone();
     let y = g(move || match ByronAddress::from_bytes(d) { Ok(b) => format!("ok:{}", byron_desc(&b)), Err(_) => "err".into() })
         .unwrap_or("panic".into());
@@ -206,7 +210,23 @@ fn obs_dec(data: Vec<u8>) -> String {
         Ok(w) if w.len() == 1 => format!("ok:{}", addr_desc(&w.keys().get(0).to_address())),
         _ => "err".into(),
     }).unwrap_or("panic".into());
-    format!("{}/{} S={} A={} R={} S2={} E={} W={} Y={} K={}", short(&s), short(&e), s, a, r, s2, e, w, y, k)
+    format!("{}/{} S={} H={} A={} R={} S2={} E={} W={} Y={} K={}", short(&s), short(&e), s, h, a, r, s2, e, w, y, k)
+}
+/// b58a: V is_valid, Z from_base58, X to_base58 of what was read
+fn obs_b58a(text: &str) -> String {
+    let v = ByronAddress::is_valid(text);
+    let (z, x) = match ByronAddress::from_base58(text) {
+        Ok(b) => (format!("ok:{}", byron_desc(&b)), hexd(b.to_base58().as_bytes())),
+        Err(_) => ("err".to_string(), "~".to_string()),
+    };
+    format!("{} V={} Z={} X={}", if z.starts_with("ok") { "ok" } else { "err" }, v as u8, z, x)
+}
+/// becha: B the bech32 text of (hrp, payload) made with the crate, Q Address::from_bech32 of it
+fn obs_becha(hrp: &str, payload: Vec<u8>) -> String {
+    match h12::b32_encode(hrp, &h12::b32_to_base32(&payload)) {
+        Some(s) => { let q = res_addr(Address::from_bech32(&s)); format!("{} B={} Q={}", short(&q), hexd(s.as_bytes()), q) }
+        None => "refused B=none Q=none".to_string(),
+    }
 }
 fn split_hrp(s: &str) -> String { match s.rfind('1') { Some(i) => s[..i].to_string(), None => String::new() } }
 /// enc: T to_bytes, D strict parse of T, M embedded parse of T, A accessors of the value, P default HRP,
@@ -268,6 +288,8 @@ fn run_case(toks: &[String]) -> String {
         "bech" => obs_bech(&utf8(&t[1]), unhex_or_dash(&t[2])),
         "bech5" => obs_bech5(&utf8(&t[1]), unhex_or_dash(&t[2])),
         "bechd" => obs_bechd(&utf8(&t[1])),
+        "b58a" => obs_b58a(&String::from_utf8_lossy(&unhex_or_dash(&t[1]))),
+        "becha" => obs_becha(&utf8(&t[1]), unhex_or_dash(&t[2])),
         _ => "bad-case".to_string(),
     })
 }
@@ -524,6 +546,40 @@ fn gen(dir: &str) {
             _ => { s = { let n = r.below(30) as usize; (0..n).map(|_| *r.pick(b"qpzry9x8gf2tvdw0s3jn54khce6mua7l1aAbB1 ")).collect() } }   // noise
         }
         emit(&mut out, format!("bechd {}", hexd(&s)));
+    }
+    // 7. every text / bytes entry point with bytes after a complete address (and other damage):
+    //    Base58 text of Byron bytes, bech32 text of arbitrary payloads
+    let n_txt = if thorough { 1500 } else { 300 };
+    for i in 0..n_txt {
+        let p = rand_byron_parts(&mut r);
+        let canon = byron_variant(&mut r, &p, 99);
+        let bytes: Vec<u8> = match i % 10 {
+            0 => canon.clone(),
+            1 | 2 | 3 => { let mut b = canon.clone(); let n = r.range(1, 4) as usize; b.extend(safe_bytes(&mut r, n)); b }       // trailing bytes
+            4 => { let mut b = canon.clone(); b.push(0); b }
+            5 => { let cut = r.below(canon.len() as u64) as usize; canon[..cut].to_vec() }                          // truncated
+            6 => { let w = *r.pick(&[0u64, 1, 3, 7, 9, 13, 15, 17, 20, 23, 28, 31, 33]); byron_variant(&mut r, &p, w) }    // non-canonical / broken (never a huge length)
+            7 => { let mut b = vec![0u8; r.range(1, 3) as usize]; b.extend(&canon); b }                             // leading zero bytes -> leading '1's
+            8 => { let mut b = canon.clone(); let k = r.below(b.len() as u64) as usize; b[k] ^= 1 << r.below(8); if b.windows(2).any(|w| w[0] == 0x5b || w[0] == 0x5a) { canon.clone() } else { b } }
+            _ => { let n = r.below(40) as usize; safe_bytes(&mut r, n) }
+        };
+        let mut text = verif_base58::encode(&bytes).into_bytes();
+        if i % 23 == 22 && !text.is_empty() { let k = r.below(text.len() as u64) as usize; text[k] = *r.pick(&[b'0', b'O', b'I', b'l']); }
+        emit(&mut out, format!("b58a {}", hexd(&text)));
+    }
+    for i in 0..n_txt {
+        let d = rand_shelley_desc(&mut r, i % 4);
+        let valid = if i % 5 == 4 { let bp = rand_byron_parts(&mut r); byron_variant(&mut r, &bp, 99) }
+                    else { std::panic::catch_unwind(|| build(&d).to_bytes()).unwrap_or_default() };
+        let payload: Vec<u8> = match i % 6 {
+            0 => valid.clone(),
+            1 | 2 => { let mut b = valid.clone(); let n = r.range(1, 4) as usize; b.extend(safe_bytes(&mut r, n)); b }
+            3 => { let cut = r.below(valid.len().max(1) as u64) as usize; valid[..cut].to_vec() }
+            4 => vec![],
+            _ => { let n = r.below(70) as usize; let mut b = safe_bytes(&mut r, n); if !b.is_empty() && r.chance(1, 2) { b[0] = *r.pick(&[0x01u8, 0x41, 0x61, 0xe1, 0xf0, 0x90]); } b }
+        };
+        let hrp = r.pick(&["addr", "addr_test", "stake", "stake_test", "x", "ADDR"]).to_string();
+        emit(&mut out, format!("becha {} {}", hexd(hrp.as_bytes()), hexd(&payload)));
     }
     out.finish();
 }
